@@ -41,6 +41,13 @@ impl Rng {
             let d = self.below(5) as i64 - 2;
             return (m as i128 + d as i128).clamp(0, u64::MAX as i128) as u64;
         }
+        if r < 58 && !marks.is_empty() {
+            // a live boundary plus 2^32 (or 2^63): whatever narrows a 64-bit operand on its way sees a valid value there
+            let m = *self.pick(marks);
+            let d = self.below(3) as i64 - 1;
+            let hi = if self.chance(3, 4) { 1u128 << 32 } else { 1u128 << 63 };
+            return ((m as i128 + d as i128).max(0) as u128 + hi).min(u64::MAX as u128) as u64;
+        }
         if r < 65 {
             let ext = [
                 0u64,
